@@ -361,4 +361,4 @@ CLAIM = ("Seeded exploration: the real library runs inside the simulator while t
          "~25 entry points with live, stale, cross-token and foreign-found handles; every probe of a private object from a session that is not a user session must fail "
          "(with the access-matrix code where the handle is live), leak no registered value and yield no handle; token-object writes through RO sessions must fail; the positive "
          "direction is checked so that a library refusing everything is caught. Evidence, not proof.")
-NOTE = "Trusted: reference model; harness-known values (>= 12 bytes) for leak scanning. A second process without login is exercised in C15. Every fifth plan injects one I/O error into up to three calls that take an object handle (file store, and SQLite store every other time): from the first fault on only "does not succeed" and "leaks nothing" are judged."
+NOTE = "Trusted: reference model; harness-known values (>= 12 bytes) for leak scanning. A second process without login is exercised in C15. Every fifth plan injects one I/O error into up to three calls that take an object handle (file store, and SQLite store every other time): from the first fault on only 'does not succeed' and 'leaks nothing' are judged."
